@@ -43,13 +43,13 @@ theorem wp_mono {α} {m : M R α} {Q Q' : Out α → MS R → Prop} {flt : Optio
 
 theorem wp_step (k n : String) (eff : State R → State R) (Q : Out Unit → MS R → Prop) (flt ms) :
     wp (step k n eff) Q flt ms ↔
-      (if hit flt ms.fired ms.cnt k n = true then Q .fail (failMS ms k n) else Q (.ok ()) (okMS ms k n eff)) := by
+      (if hit flt ms.fired ms.cnt (cxOf ms k n) k n = true then Q .fail (failMS ms k n) else Q (.ok ()) (okMS ms k n eff)) := by
   unfold wp step
   split <;> simp
 
 theorem wp_readStep (k n : String) (Q : Out Unit → MS R → Prop) (flt ms) :
     wp (readStep k n) Q flt ms ↔
-      (if hit flt ms.fired ms.cnt k n = true then Q .fail (failMS ms k n) else Q (.ok ()) (okMS ms k n id)) :=
+      (if hit flt ms.fired ms.cnt (cxOf ms k n) k n = true then Q .fail (failMS ms k n) else Q (.ok ()) (okMS ms k n id)) :=
   wp_step k n id Q flt ms
 
 theorem wp_refuse {α} (Q : Out α → MS R → Prop) (flt ms) : wp (refuse : M R α) Q flt ms ↔ Q .fail ms := Iff.rfl
@@ -77,25 +77,27 @@ def txnK2 (rb : Option (Bool → M R Unit)) (Q : Out Unit → MS R → Prop) (fl
   | .ok _ => Q (.ok ()) ms
   | .fail => match rb with
     | none => Q .fail ms
-    | some rb => Q .fail (exec (rb false) flt ms)
+    | some rb => Q .fail (exec (withDetached (rb false)) flt ms)
 /-- after the condition step of a transaction -/
 def txnK1 (t : M R Unit) (rb : Option (Bool → M R Unit)) (Q : Out Unit → MS R → Prop) (flt : Option Addr) (o : Out Unit) (ms : MS R) : Prop :=
   match o with
-  | .ok _ => wp t (txnK2 rb Q flt) flt ms
+  | .ok _ => wp (match rb with | none => withDetached t | some _ => t) (txnK2 rb Q flt) flt ms
   | .fail => match rb with
     | none => Q .fail ms
-    | some rb => Q .fail (exec (rb true) flt ms)
+    | some rb => Q .fail (exec (withDetached (rb true)) flt ms)
 
 @[simp] theorem txnK2_ok (rb : Option (Bool → M R Unit)) (Q : Out Unit → MS R → Prop) (flt) (u : Unit) (ms : MS R) :
     txnK2 rb Q flt (.ok u) ms = Q (.ok ()) ms := rfl
 @[simp] theorem txnK2_fail_some (rb : Bool → M R Unit) (Q : Out Unit → MS R → Prop) (flt) (ms : MS R) :
-    txnK2 (some rb) Q flt .fail ms = Q .fail (exec (rb false) flt ms) := rfl
+    txnK2 (some rb) Q flt .fail ms = Q .fail (exec (withDetached (rb false)) flt ms) := rfl
 @[simp] theorem txnK2_fail_none (Q : Out Unit → MS R → Prop) (flt) (ms : MS R) :
     txnK2 none Q flt .fail ms = Q .fail ms := rfl
-@[simp] theorem txnK1_ok (t : M R Unit) (rb : Option (Bool → M R Unit)) (Q : Out Unit → MS R → Prop) (flt) (u : Unit) (ms : MS R) :
-    txnK1 t rb Q flt (.ok u) ms = wp t (txnK2 rb Q flt) flt ms := rfl
+@[simp] theorem txnK1_ok_some (t : M R Unit) (rb : Bool → M R Unit) (Q : Out Unit → MS R → Prop) (flt) (u : Unit) (ms : MS R) :
+    txnK1 t (some rb) Q flt (.ok u) ms = wp t (txnK2 (some rb) Q flt) flt ms := rfl
+@[simp] theorem txnK1_ok_none (t : M R Unit) (Q : Out Unit → MS R → Prop) (flt) (u : Unit) (ms : MS R) :
+    txnK1 t none Q flt (.ok u) ms = wp (withDetached t) (txnK2 none Q flt) flt ms := rfl
 @[simp] theorem txnK1_fail_some (t : M R Unit) (rb : Bool → M R Unit) (Q : Out Unit → MS R → Prop) (flt) (ms : MS R) :
-    txnK1 t (some rb) Q flt .fail ms = Q .fail (exec (rb true) flt ms) := rfl
+    txnK1 t (some rb) Q flt .fail ms = Q .fail (exec (withDetached (rb true)) flt ms) := rfl
 @[simp] theorem txnK1_fail_none (t : M R Unit) (Q : Out Unit → MS R → Prop) (flt) (ms : MS R) :
     txnK1 t none Q flt .fail ms = Q .fail ms := rfl
 
@@ -107,9 +109,15 @@ theorem wp_txn (c t : M R Unit) (rb : Option (Bool → M R Unit)) (Q : Out Unit 
     cases o with
     | fail => cases rb <;> simp [txnK1, exec]
     | ok u =>
-      simp only [txnK1, wp]
-      cases h2 : t flt ms1 with
-      | mk o2 ms2 => cases o2 <;> cases rb <;> simp [txnK2, exec]
+      cases rb with
+      | none =>
+        simp only [txnK1, wp]
+        cases h2 : withDetached t flt ms1 with
+        | mk o2 ms2 => cases o2 <;> simp [txnK2]
+      | some rb =>
+        simp only [txnK1, wp]
+        cases h2 : t flt ms1 with
+        | mk o2 ms2 => cases o2 <;> simp [txnK2, exec]
 
 theorem wp_txn_some (c t : M R Unit) (rb : Bool → M R Unit) (Q : Out Unit → MS R → Prop) (flt ms) :
     wp (txn c t (some rb)) Q flt ms ↔ wp c (txnK1 t (some rb) Q flt) flt ms := wp_txn c t (some rb) Q flt ms
@@ -117,20 +125,52 @@ theorem wp_txn_some (c t : M R Unit) (rb : Bool → M R Unit) (Q : Out Unit → 
 theorem wp_txn_none (c t : M R Unit) (Q : Out Unit → MS R → Prop) (flt ms) :
     wp (txn c t none) Q flt ms ↔ wp c (txnK1 t none Q flt) flt ms := wp_txn c t none Q flt ms
 
+/-- the machine state with the detached flag set to `b` -/
+def setDet (ms : MS R) (b : Bool) : MS R := { ms with detached := b }
+
+@[simp] theorem setDet_st (ms : MS R) (b) : (setDet ms b).st = ms.st := rfl
+@[simp] theorem setDet_fired (ms : MS R) (b) : (setDet ms b).fired = ms.fired := rfl
+@[simp] theorem setDet_cnt (ms : MS R) (b) : (setDet ms b).cnt = ms.cnt := rfl
+@[simp] theorem setDet_msgs (ms : MS R) (b) : (setDet ms b).msgs = ms.msgs := rfl
+@[simp] theorem setDet_allocd (ms : MS R) (b) : (setDet ms b).allocd = ms.allocd := rfl
+@[simp] theorem setDet_failed (ms : MS R) (b) : (setDet ms b).failed = ms.failed := rfl
+@[simp] theorem setDet_detached (ms : MS R) (b) : (setDet ms b).detached = b := rfl
+@[simp] theorem setDet_cancel (ms : MS R) (b) : (setDet ms b).cancel = ms.cancel := rfl
+@[simp] theorem setDet_cancelled (ms : MS R) (b) : (setDet ms b).cancelled = ms.cancelled := rfl
+
+theorem wp_withDetached {α} (m : M R α) (Q : Out α → MS R → Prop) (flt : Option Addr) (ms : MS R) :
+    wp (withDetached m) Q flt ms ↔ wp m (fun o ms' => Q o (setDet ms' ms.detached)) flt (setDet ms true) := Iff.rfl
+
+theorem exec_withDetached {α} (m : M R α) (flt : Option Addr) (ms : MS R) :
+    exec (withDetached m) flt ms = setDet (exec m flt (setDet ms true)) ms.detached := rfl
+
+/-- the machine state after `renew` -/
+def renewMS (flt : Option Addr) (ms : MS R) : MS R :=
+  if flt.isNone && ms.cancel.isSome then { ms with fired := false } else ms
+
+@[simp] theorem renewMS_st (flt) (ms : MS R) : (renewMS flt ms).st = ms.st := by unfold renewMS; split <;> rfl
+@[simp] theorem renewMS_msgs (flt) (ms : MS R) : (renewMS flt ms).msgs = ms.msgs := by unfold renewMS; split <;> rfl
+@[simp] theorem renewMS_allocd (flt) (ms : MS R) : (renewMS flt ms).allocd = ms.allocd := by unfold renewMS; split <;> rfl
+@[simp] theorem renewMS_failed (flt) (ms : MS R) : (renewMS flt ms).failed = ms.failed := by unfold renewMS; split <;> rfl
+@[simp] theorem renewMS_detached (flt) (ms : MS R) : (renewMS flt ms).detached = ms.detached := by unfold renewMS; split <;> rfl
+
+theorem wp_renew (Q : Out Unit → MS R → Prop) (flt : Option Addr) (ms : MS R) :
+    wp renew Q flt ms ↔ Q (.ok ()) (renewMS flt ms) := Iff.rfl
+
 theorem exec_pure (flt : Option Addr) (ms : MS R) : exec (pure () : M R Unit) flt ms = ms := rfl
 
 theorem exec_step (k n : String) (eff : State R → State R) (flt : Option Addr) (ms : MS R) :
-    exec (step k n eff) flt ms = if hit flt ms.fired ms.cnt k n = true then failMS ms k n else okMS ms k n eff := by
+    exec (step k n eff) flt ms = if hit flt ms.fired ms.cnt (cxOf ms k n) k n = true then failMS ms k n else okMS ms k n eff := by
   unfold exec step
   split <;> rfl
 
 theorem exec_bind_step {β} (k n : String) (eff : State R → State R) (f : Unit → M R β)
     (flt : Option Addr) (ms : MS R) :
     exec (step k n eff >>= f) flt ms =
-      if hit flt ms.fired ms.cnt k n = true then failMS ms k n else exec (f ()) flt (okMS ms k n eff) := by
+      if hit flt ms.fired ms.cnt (cxOf ms k n) k n = true then failMS ms k n else exec (f ()) flt (okMS ms k n eff) := by
   show (M.bind (step k n eff) f flt ms).2 = _
   unfold M.bind step exec
-  by_cases h : hit flt ms.fired ms.cnt k n = true <;> simp [h]
+  by_cases h : hit flt ms.fired ms.cnt (cxOf ms k n) k n = true <;> simp [h]
 
 theorem exec_bind_getSt {β} (f : State R → M R β) (flt : Option Addr) (ms : MS R) :
     exec (getSt >>= f) flt ms = exec (f ms.st) flt ms := rfl
@@ -146,7 +186,7 @@ theorem wp_ite {α} (c : Prop) [Decidable c] (a b : M R α) (Q : Out α → MS R
     wp (if c then a else b) Q flt ms ↔ if c then wp a Q flt ms else wp b Q flt ms := by
   split <;> rfl
 
-theorem hit_true_fired {flt : Option Addr} {fired : Bool} {c k n} (h : hit flt fired c k n = true) :
+theorem hit_true_fired {flt : Option Addr} {fired : Bool} {c cx k n} (h : hit flt fired c cx k n = true) :
     fired = false := by
   simp [hit] at h
   exact h.1
@@ -157,6 +197,10 @@ theorem hit_true_fired {flt : Option Addr} {fired : Bool} {c k n} (h : hit flt f
 @[simp] theorem failMS_allocd (ms : MS R) (k n) : (failMS ms k n).allocd = ms.allocd := rfl
 @[simp] theorem failMS_failed (ms : MS R) (k n) : (failMS ms k n).failed = ms.failed := rfl
 @[simp] theorem okMS_fired (ms : MS R) (k n eff) : (okMS ms k n eff).fired = ms.fired := rfl
+@[simp] theorem okMS_detached (ms : MS R) (k n eff) : (okMS ms k n eff).detached = ms.detached := rfl
+@[simp] theorem failMS_detached (ms : MS R) (k n) : (failMS ms k n).detached = ms.detached := rfl
+@[simp] theorem okMS_cancel (ms : MS R) (k n eff) : (okMS ms k n eff).cancel = ms.cancel := rfl
+@[simp] theorem failMS_cancel (ms : MS R) (k n) : (failMS ms k n).cancel = ms.cancel := rfl
 @[simp] theorem okMS_st (ms : MS R) (k n eff) : (okMS ms k n eff).st = eff ms.st := rfl
 @[simp] theorem okMS_msgs (ms : MS R) (k n eff) : (okMS ms k n eff).msgs = ms.msgs := rfl
 @[simp] theorem okMS_allocd (ms : MS R) (k n eff) : (okMS ms k n eff).allocd = ms.allocd := rfl
@@ -164,12 +208,13 @@ theorem hit_true_fired {flt : Option Addr} {fired : Bool} {c k n} (h : hit flt f
 
 /-- unfold one layer of the wp calculus (everything up to the next "does the plan hit this step?") -/
 macro "wp_simp" : tactic => `(tactic| simp only [wp_txn, wp_step, wp_readStep, wp_bind, wp_pure, wp_refuse,
-  wp_getSt, wp_getMS, wp_emit, wp_attempt, wp_ite, wpK_ok, wpK_fail, attK_ok, attK_fail, txnK1_ok,
-  txnK1_fail_some, txnK1_fail_none, txnK2_ok, txnK2_fail_some, txnK2_fail_none, onThenFailure,
+  wp_getSt, wp_getMS, wp_emit, wp_attempt, wp_ite, wpK_ok, wpK_fail, attK_ok, attK_fail,
+  txnK1_ok_some, txnK1_ok_none, txnK1_fail_some, txnK1_fail_none, txnK2_ok, txnK2_fail_some, txnK2_fail_none, onThenFailure,
+  wp_withDetached, exec_withDetached, wp_renew, setDet_st, setDet_fired, setDet_cnt, setDet_detached,
   exec_pure, exec_step, exec_bind_step, exec_bind_getSt, exec_bind_getMS, exec_ite, hit_fired,
   failMS_fired, okMS_fired, failMS_st, okMS_st, Bool.false_eq_true, if_false, if_true])
 
 /-- close a leaf of the case tree -/
-macro "wp_fin" : tactic => `(tactic| simp [exec_pure, exec_step, exec_bind_step, exec_bind_getSt, exec_bind_getMS, exec_ite])
+macro "wp_fin" : tactic => `(tactic| simp [exec_pure, exec_step, exec_bind_step, exec_bind_getSt, exec_bind_getMS, exec_ite, exec_withDetached])
 
 end Eru.Cluster
